@@ -1,4 +1,5 @@
 """C18 - loading into a populated target gives the same result as into a fresh one (stale-state eliminators, structural)."""
+import re
 from bsv.cfg import CFG
 from bsv.effects import live_walk
 from bsv.facts import AnalysisBroken, child, strip, strip_targs
@@ -164,6 +165,11 @@ def run(prog, rep):
                 for n in g.path_nodes(path):
                     if n['k'] == 'CallExpr' and (f.callee(n) or {}).get('n') == 'Serialize':
                         loads += 1
+                    elif n['k'] in ('CXXOperatorCallExpr', 'CallExpr', 'CXXMemberCallExpr') and (f.callee(n) or {}).get('repo') \
+                            and ((f.callee(n) or {}).get('kind') == 'lambda' or (f.callee(n) or {}).get('q', '').startswith('BitSerializer::Detail::')):
+                        h = prog.funcs.get(f.callee(n)['id'])       # a local lambda / small helper that loads the element
+                        if h is not None and h.body is not None and not any(x['k'] in ('ForStmt', 'WhileStmt', 'DoStmt', 'IfStmt') for x in h.walk()):
+                            loads += sum(1 for x in h.walk() if x['k'] == 'CallExpr' and (h.callee(x) or {}).get('n') == 'Serialize')
                     if n['k'] == 'UnaryOperator' and n.get('op') == '++':
                         t = strip(n['c'][0])
                         if t is not None and t['k'] == 'DeclRefExpr' and 'size' in f.type(t).lower() or (t is not None and t['k'] == 'DeclRefExpr' and t.get('n', '').lower().startswith('loaded')):
@@ -254,8 +260,7 @@ def run(prog, rep):
                             if lhs is not None and lhs.get('d') == d and any(x.get('n') == 'nullopt' for x in f.walk(n['c'][2])):
                                 reset = True
                         if n['k'] == 'ReturnStmt':
-                            v = strip(child(n, 'value'))
-                            ret = v.get('cv') if v is not None else None
+                            ret = ret_value(f, child(n, 'value'), path_bools(f, dec))
                     if ret == 0 and not reset:
                         bad = 'the not-loaded path (return false) leaves the previous / freshly created value in the %s' % kind
                     if ret == 1 and reset:
@@ -364,43 +369,20 @@ def run(prog, rep):
     from rules import seqload
     seqload.check(prog, rep, 'R18.3', select_seq)
 
-    # ---------------------------------------------------------------- R18.2: lambda inside SerializeMapImpl
+    # ---------------------------------------------------------------- R18.2: the key-visiting lambda of SerializeMapImpl, executed per mode
     modes = prog.enums.get('BitSerializer::MapLoadMode')
     if modes is None:
         raise AnalysisBroken('anchor vanished: enum MapLoadMode')
     seen = 0
     for f in sorted(prog.funcs.values(), key=lambda x: x.id):
-        if f.sym['kind'] != 'lambda' or 'generic_map.h' not in f.file:
+        if f.sym['kind'] != 'lambda' or 'generic_map.h' not in f.file or f.body is None:
             continue
-        sw = [n for n in f.walk() if n['k'] == 'SwitchStmt']
-        if not sw:
+        mode_refs = [n for n in f.walk() if n['k'] == 'DeclRefExpr' and 'MapLoadMode' in f.type(n) and n.get('dk') in ('Var', 'ParmVar')]
+        if not mode_refs:
             continue
         rep.touch(f)
         seen += 1
-        body = child(sw[0], 'body')
-        groups = {}
-        cur = None
-        for st in body.get('c', []):
-            x = st
-            while x is not None and x['k'] in ('CaseStmt', 'DefaultStmt'):
-                if x['k'] == 'CaseStmt':
-                    lhs = child(x, 'lhs')
-                    cur = lhs.get('cv') if lhs is not None else None
-                    groups.setdefault(cur, [])
-                x = child(x, 'sub')
-            if cur is not None and x is not None:
-                groups[cur].append(x)
-        problems = []
-        for mode, forbidden, label in ((modes['items']['OnlyExistKeys'], INSERTING, 'inserting'), (modes['items']['UpdateKeys'], REMOVING, 'removing')):
-            stmts = groups.get(mode)
-            if stmts is None:
-                problems.append('no case for mode %s' % mode)
-                continue
-            for st in stmts:
-                for x in f.walk(st):
-                    nm = calls_named(f, x, forbidden)
-                    if nm:
-                        problems.append('%s branch performs the %s operation %s()' % ('OnlyExistKeys' if label == 'inserting' else 'UpdateKeys', label, nm))
+        problems = map_ops_by_mode(prog, f, mode_refs[0]['d'], modes)
         site = 'SerializeMapImpl::lambda|modes'
         if problems:
             for p in sorted(set(problems)):
@@ -408,7 +390,87 @@ def run(prog, rep):
         else:
             rep.ok('R18.2', site + '|' + f.id[-60:], sample={'modes_checked': ['OnlyExistKeys: no insert', 'UpdateKeys: no removal']} if seen < 2 else None)
     if seen == 0:
-        raise AnalysisBroken('R18.2: the key-visiting lambda of SerializeMapImpl (with its switch over MapLoadMode) was not found')
+        raise AnalysisBroken('R18.2: the key-visiting lambda of SerializeMapImpl (the one that reads the MapLoadMode) was not found')
+
+
+def map_ops_by_mode(prog, f, mode_decl, modes):
+    """the key-visiting lambda interpreted once per load mode (captured mode bound to the enumerator; switch, if-chain or helper alike):
+    which operations reach a map (any object whose type is a std::map / unordered_map) on some path"""
+    from bsv.dtab import TOP, Interp, Model, Sym
+
+    class M(Model):
+        def initial_store(self, it, key):
+            return TOP
+
+        def compare(self, it, fr, n, op, a, b):
+            return Sym(('GUARD', 'CMP@%s' % fr.f.loc(n)))
+
+        def construct(self, it, fr, n, depth):
+            for a in n.get('c', ()):
+                it.ev(fr, a, depth)
+            return TOP
+
+        def primitive(self, it, fr, n, callee, depth):
+            obj, args = it.call_args(fr, n)
+            if obj is not None:
+                t = fr.f.type(strip(obj)) if strip(obj) is not None else ''
+                if re.match(r'(const )?std::(unordered_)?(multi)?map<', t):
+                    it.act('MAPOP', callee['n'], fr.f.loc(n))
+            if callee.get('repo') and not callee.get('cls') and callee['q'].startswith('BitSerializer::Detail::') and callee['id'] in it.prog.funcs \
+                    and len(list(it.prog.funcs[callee['id']].walk())) < 400 and callee['n'] not in ('Serialize', 'SerializeObject', 'SerializeArray', 'ConvertByPolicy'):
+                return NotImplemented
+            for a in args:
+                it.ev(fr, a, depth)
+            if callee['n'] == 'ConvertByPolicy':
+                return Sym(('GUARD', 'KEYCONVERTED'))
+            return TOP
+    problems = []
+    for name, forbidden, label in (('OnlyExistKeys', INSERTING, 'inserting'), ('UpdateKeys', REMOVING, 'removing'), ('Clean', set(), '')):
+        it = Interp(prog, M(), max_depth=2, max_paths=400)
+
+        def init(it_, fr):
+            for p in f.params:
+                fr.env[p['d']] = TOP
+            fr.env[mode_decl] = modes['items'][name]
+        ops = set()
+        for p in it.run(f, init):
+            for a in p.actions:
+                if a[0] == 'MAPOP':
+                    ops.add(a[1])
+        bad = sorted(ops & forbidden)
+        for nm in bad:
+            problems.append('%s branch performs the %s operation %s()' % (name, label, nm))
+        if name == 'Clean' and not (ops & INSERTING):
+            problems.append('in mode Clean no path inserts the loaded key')
+    return problems
+
+
+def path_bools(f, dec):
+    """{decl id: 0/1} for bool locals (or anything tested bare) whose truth a branch decision of this path fixes: `if (x)` / `if (!x)`"""
+    known = {}
+    for cid, idx, _tk in dec:
+        n = f.node(cid) if isinstance(cid, int) else None
+        e = strip(n) if n is not None else None
+        neg = False
+        while e is not None and e['k'] == 'UnaryOperator' and e.get('op') == '!':
+            neg = not neg
+            e = strip(e['c'][0])
+        if e is not None and e['k'] == 'DeclRefExpr' and e.get('d') is not None:
+            val = (idx == 0)
+            known[e['d']] = 0 if (val == neg) else 1
+    return known
+
+
+def ret_value(f, v, known):
+    """constant returned, also through a local whose value the path decisions fix; None when unknown"""
+    v = strip(v)
+    if v is None:
+        return None
+    if 'cv' in v:
+        return v['cv']
+    if v['k'] == 'DeclRefExpr' and v.get('d') in known:
+        return known[v['d']]
+    return None
 
 
 def check_wrapper_results(prog, rep, rule):
@@ -440,8 +502,8 @@ def check_wrapper_results(prog, rep, rule):
                     if lhs is not None and lhs.get('d') == d and any(y.get('n') == 'nullopt' for y in f.walk(x['c'][2])):
                         reset = True
                 if x['k'] == 'ReturnStmt':
-                    v = strip(child(x, 'value'))
-                    ret = v.get('cv', 'call') if v is not None else 'none'
+                    rv = ret_value(f, child(x, 'value'), path_bools(f, dec))
+                    ret = 'call' if rv is None else rv
             if reset and ret != 0:
                 bad = 'a path that empties the %s returns %s instead of false: an explicit null / failed load is reported as loaded' % (
                     kind, 'true' if ret == 1 else 'the result of another call')
